@@ -378,6 +378,56 @@ func GenBulk(t *rt.Tape, n int) []Segment {
 	return segs
 }
 
+// GenBoundaryFit draws a run of long frames whose cumulative size lands just
+// short of a buffer-sized boundary (1024 .. 8192), followed by a frame of nearly
+// the maximum length: fixed-size buffers, batching and ring code fail exactly
+// where a frame almost fits.
+func GenBoundaryFit(t *rt.Tape) []Segment {
+	B := []int{1024, 2048, 4096, 4096, 8192}[t.S(5)]
+	lead := t.S(3) // frames written before the batch that is being fitted starts
+	mk := func(payload int) Segment {
+		p := make([]byte, payload)
+		seed := byte(t.S(256))
+		for i := range p {
+			p[i] = seed ^ byte(i*5)
+		}
+		p[0] = 0x3e
+		if payload >= 2 {
+			p[1] = p[1]&0x0f | 0xd0 // type 1005
+		}
+		f := Frame(p)
+		return Segment{Kind: KindFrame, Bytes: f, Type: TypeOf(f)}
+	}
+	var segs []Segment
+	for i := 0; i < lead; i++ {
+		segs = append(segs, mk(1+t.S(1023)))
+	}
+	// the fitted batch: total = B - d, d around the maximum frame length
+	d := 1015 + t.S(20)
+	target := B - d
+	cum := 0
+	for target-cum > 1029 {
+		n := 1029
+		if rest := target - cum - n; rest > 0 && rest < 7 {
+			n -= 7
+		}
+		if t.S(3) == 0 && target-cum-1029 > 1029 {
+			n = 700 + t.S(330)
+		}
+		segs = append(segs, mk(n-6))
+		cum += n
+	}
+	if rest := target - cum; rest >= 7 {
+		segs = append(segs, mk(rest-6))
+	}
+	// the frame that almost fits
+	segs = append(segs, mk(1015+t.S(9)))
+	for i := t.S(3); i > 0; i-- {
+		segs = append(segs, mk(1+t.S(1023)))
+	}
+	return segs
+}
+
 func Concat(segs []Segment) []byte {
 	var b []byte
 	for _, s := range segs {
